@@ -175,7 +175,7 @@ ObjPres(p, pr) ==
 
 \* R10 a set given as one list | several arguments | a tuple | a generator | a constraint and a list |
 \*     nested lists.  NCons = number of constraints of the H-representation in harness/ro_catalogue.py.
-NCons(s) == CASE s \in {1, 2, 3, 9, 16} -> 2 [] s = 7 -> 1 [] OTHER -> 0
+NCons(s) == CASE s \in {1, 2, 3, 9, 16} -> 2 [] s = 7 -> 1 [] s = 18 -> 4 [] OTHER -> 0
 AllCons(s) == [i \in 1..NCons(s) |-> i]
 SpellSet(s, sp) ==
     CASE sp \in {"list", "tuple", "gen"} -> [how |-> sp, args |-> << [d |-> 1, cs |-> AllCons(s)] >>]
@@ -193,7 +193,8 @@ Present(p, pr) ==
     [front |-> pr.front, decl |-> pr.decl, opos |-> pr.opos, xint |-> p.xint, mask |-> p.mask,
      dset |-> p.dset, obj |-> ObjPres(p, pr),
      stmts |-> FlattenSeq([j \in 1..NI(p) |-> ItemStmts(p, pr, pr.order[j])]),
-     sets |-> {[id |-> s, sp |-> SpellSet(s, pr.ssp)] : s \in UsedSets(p)}]
+     sets |-> {[id |-> s, sp |-> SpellSet(s, pr.ssp)] : s \in UsedSets(p)},
+     setlin |-> pr.sbl = "lin"]
 
 -----------------------------------------------------------------------------
 (* THE REWRITE TABLE - semantics: what a presented model denotes *)
@@ -291,7 +292,7 @@ Pres0(p) ==
      rsp |-> [i \in 1..NR(p) |-> "dir"], rsc |-> [i \in 1..NR(p) |-> <<1, 1>>],
      esp |-> [i \in 1..NR(p) |-> "one"], asp |-> [i \in 1..NR(p) |-> "loop"],
      msp |-> [i \in 1..NR(p) |-> "sides"], csp |-> [i \in 1..NR(p) |-> "last"],
-     bsp |-> "arr", ssp |-> "list", front |-> "ro"]
+     bsp |-> "arr", ssp |-> "list", sbl |-> "obj", front |-> "ro"]
 
 \* TLC evaluates every initial state (also in simulation mode): the oracle is computed by the first
 \* step of a behaviour, so that only the programs actually walked are paid for
@@ -338,6 +339,11 @@ RespellSet(sp) == /\ CanStep("RespellSet")
                   /\ pres.ssp # sp
                   /\ (sp = "nested" => pres.front # "ro")
                   /\ Step("RespellSet", 0, sp, [pres EXCEPT !.ssp = sp])
+\* R10b the bounds INSIDE an uncertainty set / support written as bound objects (z >= a on the whole
+\*      random array or an entry of it) | as linear constraints (1.0*z >= a): Bounds versus LinConstr
+\*      in the support model, i.e. bound vectors versus rows of the program that is dualised
+RespellSetBounds == /\ CanStep("RespellSetBounds")
+                    /\ Step("RespellSetBounds", 0, "", [pres EXCEPT !.sbl = IF @ = "obj" THEN "lin" ELSE "obj"])
 SwitchFront(f) == /\ CanStep("SwitchFront")
                   /\ pres.front # f
                   /\ (f = "ro" => pres.ssp # "nested")
@@ -356,6 +362,7 @@ RwNext == \/ Start
           \/ \E i \in 1..MaxRows : MoveConst(i)
           \/ \E b \in BoundSpellings : RespellBounds(b)
           \/ \E sp \in SetSpellings : RespellSet(sp)
+          \/ RespellSetBounds
           \/ \E f \in Fronts : SwitchFront(f)
 
 RwSpec == RwInit /\ [][RwNext]_rwvars
